@@ -105,8 +105,12 @@ def derive_variant(rng, spec, how):
     if how == "same-names-other-formulas":
         pf = mg.get_section(s, "Potential-Form")
         if pf is not None:
+            # change a random subset of the formulas: forms that stay textually identical may call
+            # sub-forms that did change
+            whole = rng.random() < 0.4
             for e in pf["entries"]:
-                e[1] = "%s*(%s) + %s" % (fmt_num(round(rng.uniform(0.5, 2.0), 3)), e[1], fmt_num(round(rng.uniform(-1, 1), 3)))
+                if whole or rng.random() < 0.5:
+                    e[1] = "%s*(%s) + %s" % (fmt_num(round(rng.uniform(0.5, 2.0), 3)), e[1], fmt_num(round(rng.uniform(-1, 1), 3)))
         for sec in s["sections"]:
             if sec["name"] in mg.FUNCTION_SECTIONS:
                 for e in sec["entries"]:
@@ -157,7 +161,7 @@ def functions_of(spec):
 def gen_scenario(seed, tier="quick"):
     rng = random.Random(seed)
     hs_run = rng.random() < 0.15
-    opts = {"nr_max": 12, "nrho_max": 6, "max_species": 4, "forms_prob": 0.75, "tables_prob": 0.15}
+    opts = {"nr_max": 12, "nrho_max": 6, "max_species": 4, "forms_prob": 0.75, "tables_prob": 0.15, "species_override_prob": 0.35}
     if hs_run:
         opts.update({"targets": mg.EAM_TARGETS + mg.FS_TARGETS + mg.ADP_TARGETS + ["setfl", "setfl_fs", "DL_POLY_EAM_fs"],
                      "underspecified_prob": 0.9, "max_species": 4})
@@ -168,7 +172,11 @@ def gen_scenario(seed, tier="quick"):
     while len(models) < nmodels:
         how = rng.choice(["retarget", "same-names-other-formulas", "pair-from-eam", "independent", "identical"])
         if how == "independent":
-            m = mg.gen_model(rng, opts)
+            o2 = dict(opts)
+            if rng.random() < 0.7:
+                o2["prefer_species"] = list(base["meta"]["species"])
+                o2["species_override_prob"] = 0.5
+            m = mg.gen_model(rng, o2)
         elif how == "identical":
             m = copy.deepcopy(rng.choice(models))
         else:
